@@ -160,6 +160,17 @@ def run(ctx):
     fmg = ctx.view(c07.MERGE)
     if fmg is not None:
         c07.merge_rule(dep(ctx, "C15", "C07"), fmg)
+    # "counts and default differ exactly by the per-row normalisation": the same records in both modes (the sizing pass
+    # and the iterator agree on what a record is), the divisor is the number of windows binned, one delimiter per row
+    from . import c06
+    c06.end_rule(dep(ctx, "C15", "C06"))
+    c08.bin_rule(dep(ctx, "C15", "C08"))
+    if fcv is not None:
+        d8_ = dep(ctx, "C15", "C08")
+        c08.blocks_agree(d8_, fcv)
+        from .c04 import row_rule
+        row_rule(d8_, fcv, "compute_coverages", None, "C08.R")
+        rule_flush_pairing(d8_, "C08.F", fcv, "compute_coverages")
     fb, fm = ctx.view(c05.BATCH), ctx.view(c05.MMAP)
     if fb is not None and fm is not None:
         c05.header_rule(dep(ctx, "C15", "C05"), fb, fm)
